@@ -11,29 +11,28 @@ from collections import Counter
 
 import common
 from common import Ctx, exc_name
-from gridsim import RefGrid, Tokens, apply_op, enc_opt
+from gridsim import RefGrid, Tokens, apply_op, enc_opt  # noqa: F401
 
 PID = "C12"
 PROPS_MODULE = "NumbersModel.Props.C12"
 THEOREMS = [f"NumbersModel.Props.C12.{t}" for t in (
     "consistent_init", "merge_picture", "merge_step", "merge_picture_list", "merge_ranges_exact", "mergemap_roundtrip",
     "mergemap_roundtrip_needs_bound", "pack_bound_is_sharp", "open_eq_reloaded", "consistent_write",
-    "consistent_safe_edit_partial")]
+    "consistent_edit", "edit_values", "move_arithmetic_is_spec", "shift_spec_sound", "shift_spec_insert_cells", "shift_spec_delete_cells",
+    "history_consistent", "history_open_eq_reloaded")]
 PARTIAL = {
-    "consistent_safe_edit_partial": "row/column insertions and deletions strictly after every merged rectangle (and "
-    "appends) keep the table consistent, hence open == reloaded; the full statement - the same for edits before / inside "
-    "a rectangle - is false for the library (the merge map is not shifted: known finding merge-map-not-shifted; the "
-    "counter-example is an `example` in Props/C12.lean), so it cannot be proved for a faithful model",
-    "open_eq_reloaded": "proved for consistent tables (no value written into a placeholder: known finding "
-    "write-into-placeholder) with fewer than 65536 rows and columns (bound proved sharp: known finding "
+    "open_eq_reloaded": "proved for consistent tables - by history_consistent: after any history of merges, writes outside "
+    "placeholders and row/column insertions/deletions anywhere (no value written into a placeholder: known finding "
+    "write-into-placeholder) - with fewer than 65536 rows and columns (bound proved sharp: known finding "
     "merge-origin-row-over-65535); cell values themselves are assumed to round-trip (C01)",
 }
 RULE = ("one case = one scenario (request line): table shape, edits before merging, one or more merge_cells calls "
-        "(single / list form) of pairwise disjoint in-table rectangles, then writes, row/column edits after the rectangles, "
-        "more merges and save / save+reopen steps. Exhaustive: every rectangle of a 4x3 table, every pair of disjoint "
-        "rectangles of a 3x3 table, each in both forms, each followed by save and save+reopen. Seeded: shapes up to "
-        "12x8 with 1..6 rectangles (1xN, Nx1, NxM, touching, at the edges). Every distinct scenario is non-trivial "
-        "(contains at least one merge).")
+        "(single / list form) of pairwise disjoint in-table rectangles, then writes, row/column insertions and deletions "
+        "before / inside / overlapping / after the rectangles, more merges and save / save+reopen steps. Exhaustive: every "
+        "rectangle of a 4x3 table, every pair of disjoint rectangles of a 3x3 table, each in both forms, each followed by "
+        "save and save+reopen; every rectangle of a 3x3 table followed by every accepted insertion / deletion of 1 or 2 "
+        "rows / columns. Seeded: shapes up to 12x8 with 1..6 rectangles (1xN, Nx1, NxM, touching, at the edges). Every "
+        "distinct scenario is non-trivial (contains at least one merge).")
 MANIFEST = {
     "text": "Full in memory: Lean theorems over an executable model of MergeCells / Table.merge_cells (anchor, placeholder "
             "loops, final _set_merge sweep) / Cell._set_merge / merge_ranges prove merge_picture for every set of pairwise "
@@ -41,22 +40,38 @@ MANIFEST = {
             "rectangle is a placeholder reporting the rectangle, all other cells untouched, merge_ranges = exactly the "
             "rectangles). Persisting: mergemap_roundtrip (col<<16|row packing inverts exactly when row, height < 65536 - "
             "bound proved sharp) and open_eq_reloaded (save -> load -> Table.__init__ reproduces every cell of a consistent "
-            "table). Tied to the code by lock-step scenarios on the real API compared cell by cell (class, value, "
-            "is_merged, size, rect, merge_ranges) open vs model vs reopened, plus an independent picture oracle.",
-    "note": "fixes/C12-merge-placeholders.patch repairs the placeholder loops. Three defects are listed as known findings, "
-            "not fixed: the merge map is not shifted by row/column edits before or inside a rectangle; a value written into "
-            "a placeholder is visible on the open document and lost on reload; origins with row >= 65536 do not survive "
-            "save.",
+            "table). Row/column edits: consistent_edit - every accepted add_row / add_column / delete_row / delete_column "
+            "(any start, any count, with or without default) on a consistent table succeeds and leaves a consistent table "
+            "whose rectangles are shiftRects of the old ones (explicit specification: move with the cells / untouched / grow / "
+            "shrink / cease; move_arithmetic_is_spec ties the code's max-arithmetic to it, shift_spec_sound shows it keeps "
+            "rectangles in the table and disjoint, shift_spec_insert_cells / shift_spec_delete_cells state it cell by cell: a cell is "
+            "in the rectangle iff its new position is in the new one, new cells belong to it iff the insertion was strictly "
+            "inside); history_consistent / history_open_eq_reloaded - by induction over any "
+            "history of merges, writes outside placeholders and row/column edits the open document and the reopened file "
+            "show the same picture. Tied to the code by lock-step scenarios on the real API compared cell by cell (class, "
+            "value, is_merged, size, rect, merge_ranges) open vs model vs reopened after every step, plus an independent "
+            "picture oracle (plain value grid + rectangle list that follows the surviving rows/columns of each rectangle).",
+    "note": "fixes/C12-merge-placeholders.patch repairs the placeholder loops; fixes/C12-merge-map-shift.patch makes the four "
+            "row/column edits keep the merge map and the cells' merge state in step (Table._move_merges); "
+            "fixes/C12-stale-merge-owner-records.patch makes save drop the merge ranges a Numbers-written table was loaded with "
+            "(they are all in the merge region map), so moved ranges do not come back next to their old positions. Two defects are "
+            "listed as known findings, not fixed: a value written into a placeholder is visible on the open document and "
+            "lost on reload; origins with row >= 65536 do not survive save.",
     "technique": "Lean 4 proof (loop invariants over the (data, map) pair, extensional map reasoning, bit-packing "
-                 "round trip) + lock-step differential correspondence + picture oracle",
+                 "round trip, interval arithmetic of the rectangle specification, induction over histories) + lock-step "
+                 "differential correspondence + picture oracle",
 }
 ASSUMPTIONS = [
-    "A1 parsing of the range string is C10's model; the merge model takes the four parsed coordinates",
+    "A1 parsing of the range string is C10's model; the merge model takes the four parsed coordinates (also where "
+    "_move_merges hands the moved rectangle to merge_cells as '<A1>:<A1>' text: xl_cell_to_rowcol inverts xl_rowcol_to_cell)",
     "a freshly opened document has no merge-owner formula records for tables written by the library "
     "(calculate_merge_cell_ranges then only reads merge_region_map)",
     "cell values round-trip through save/reopen (C01); placeholders have no storage",
     "defaultdict probing inserts False entries into MergeCells._references; this can only change the order of saved "
     "ranges, unobservable for pairwise disjoint rectangles",
+    "cells created by add_row / add_column and by the default fill read the merge map before _move_merges; their merge "
+    "attributes are overwritten by _set_merge(None) before they can be observed (or are those of a position without entry "
+    "when every rectangle ends before the edit), so the model gives them the payload of a position without entry",
 ]
 
 
@@ -132,6 +147,46 @@ class Picture:
                 if (r, c) != (q[0], q[1]):
                     self.grid.cells[r][c] = 0
 
+    def apply(self, op):
+        """a successful edit.  A write goes to the value grid.  A row/column insertion or deletion is applied to the value
+        grid, and every rectangle follows its own cells: the surviving rows/columns of the rectangle are looked up at their
+        new indices (written from the property text, not from the library's or the model's arithmetic)."""
+        if op[0] == "w":
+            self.grid.apply(op)
+            return
+        k, n, start = op[0], op[1], op[2]
+        lo_i, hi_i = (0, 2) if k in ("ar", "dr") else (1, 3)
+        dim = self.grid.nr if lo_i == 0 else self.grid.nc          # before the edit
+        self.grid.apply(op)
+        rects = []
+        for q in self.rects:
+            span = list(range(q[lo_i], q[hi_i] + 1))                # the rectangle's rows (columns)
+            if k in ("ar", "ac"):
+                at = dim if start is None else start
+                if span[0] < at <= span[-1]:                        # strictly inside: the new rows belong to it
+                    span = span[:at - span[0]] + list(range(at, at + n)) + [i + n for i in span[at - span[0]:]]
+                else:
+                    span = [i + n if i >= at else i for i in span]  # moves with its cells / untouched
+                lost = False
+            else:
+                at = dim - n if start is None else start
+                kept = [i for i in span if not at <= i < at + n]
+                lost = len(kept) < len(span)
+                span = [i - n if i >= at else i for i in kept]
+            if not span:
+                continue                                            # deleted entirely
+            q = list(q)
+            q[lo_i], q[hi_i] = span[0], span[-1]
+            if lost and (q[0], q[1]) == (q[2], q[3]):
+                continue                                            # reduced to a single cell: no longer a merge
+            rects.append(tuple(q))
+        self.rects = rects
+        for q in rects:                                             # placeholders have no value (new ones included)
+            for r in range(q[0], q[2] + 1):
+                for c in range(q[1], q[3] + 1):
+                    if (r, c) != (q[0], q[1]):
+                        self.grid.cells[r][c] = 0
+
     def mismatch(self, v) -> str | None:
         from numbers_parser.xrefs import xl_range
         nr, nc, cells, ranges, names = v
@@ -167,20 +222,29 @@ def enc_edit(op) -> str:
     return f"{k} {op[1]} {enc_opt(op[2])}"
 
 
-def touches(op, pic: Picture) -> bool:
-    """does a row/column edit reach into or before a merged rectangle (the map would have to move)?"""
+def touches(op, pic: Picture) -> str:
+    """where a row/column edit lies relative to the merged rectangles (histogram / coverage only)."""
     k = op[0]
     if k == "w" or not pic.rects:
-        return False
+        return "no-merge"
     rows = k in ("ar", "dr")
     dim = pic.grid.nr if rows else pic.grid.nc
-    last = max(q[2] if rows else q[3] for q in pic.rects)
     n, start = op[1], op[2]
-    if k in ("ar", "ac"):
-        at = dim if start is None else start
-    else:
-        at = dim - n if start is None else start
-    return at <= last
+    ins = k in ("ar", "ac")
+    at = (dim if ins else dim - n) if start is None else start
+    kinds = set()
+    for q in pic.rects:
+        lo, hi = (q[0], q[2]) if rows else (q[1], q[3])
+        if at > hi:
+            kinds.add("after")
+        elif ins:
+            kinds.add("before" if at <= lo else "inside")
+        else:
+            kinds.add("before" if at + n <= lo else ("all" if at <= lo and hi < at + n else "overlap"))
+    for name in ("overlap", "all", "inside", "before", "after"):
+        if name in kinds:
+            return name
+    return "after"
 
 
 class MergeRunner:
@@ -218,8 +282,12 @@ class MergeRunner:
         self.steps.append(status + "=" + show_view(v))
 
     def step(self, sop):
-        """sop: ["e", op] | ["mg", rect] | ["ml", [rects]] | ["sk"] | ["sv"] | ["x", op] (edit reaching a rectangle: oracle only)."""
+        """sop: ["e", op] | ["mg", rect] | ["ml", [rects]] | ["sk"] | ["sv"] | ["x", op] (older replays: the edit, then "sk")."""
         if self.stopped:
+            return
+        if sop[0] == "x":
+            self.step(["e", sop[1]])
+            self.step(["sk"])
             return
         self.history.append(sop)
         kind = sop[0]
@@ -235,13 +303,16 @@ class MergeRunner:
                 status = "ok"
             except Exception as e:  # noqa: BLE001
                 status = "err:" + exc_name(e)
-            self.hist[f"{op[0]}:{cls}:{status}" + (":placeholder" if into_placeholder else "")] += 1
+            self.hist[f"{op[0]}:{cls}:{status}" + (":placeholder" if into_placeholder else "")
+                      + ("" if op[0] == "w" or cls == "invalid" else ":" + touches(op, self.pic))] += 1
             after = view(self.table, self.tokens)
             self.emit(status, after)
             if status == "ok" and cls != "invalid":
-                self.pic.grid.apply(op)
+                self.pic.apply(op)
             elif status != "ok" and after != before:
                 self.viol(f"error-mutates:{op[0]}", f"{op} raised {status[4:]} but changed the table")
+            elif status != "ok" and cls == "valid" and op[0] != "w":
+                self.viol(f"edit-raises:{op[0]}", f"{op} on {self.pic.grid.nr}x{self.pic.grid.nc} with merges {self.pic.rects} raised {status[4:]}")
             if into_placeholder and status == "ok":
                 # the property: every non-anchor cell of a rectangle stays a placeholder without a value,
                 # and the open document shows what the saved file shows
@@ -310,29 +381,6 @@ class MergeRunner:
             if kind == "sv":
                 self.doc = new
             self.emit("ok", view(self.table, self.tokens))
-        elif kind == "x":
-            # a row/column edit before or inside a merged rectangle: the model does not follow (known defect);
-            # the property is checked directly: open picture == reopened picture
-            op = tuple(sop[1])
-            try:
-                apply_op(self.table, op)
-            except Exception as e:  # noqa: BLE001
-                self.viol(f"raise:{op[0]}", f"{op} raised {exc_name(e)}")
-                self.stopped = True
-                return
-            now = view(self.table, self.tokens)
-            self.hist[f"x:{op[0]}"] += 1
-            try:
-                re = view(self.save_reopen().sheets[0].tables[0], self.tokens)
-            except Exception as e:  # noqa: BLE001
-                self.viol("merge-map-not-shifted", f"after {op} with merges {self.pic.rects}: save/reopen raised {exc_name(e)}")
-                self.stopped = True
-                return
-            if now != re:
-                self.viol("merge-map-not-shifted",
-                          f"merges {self.pic.rects}, then {op}: open document reports {now[4]}, the saved file {re[4]}"
-                          + ("" if now[4] != re[4] else " (cells differ)"))
-            self.stopped = True
         else:
             raise AssertionError(sop)
 
@@ -356,6 +404,22 @@ def run_scenario(job):
 # ---------------------------------------------------------------------------------------------
 def all_rects(nr, nc):
     return [(r0, c0, r1, c1) for r0 in range(nr) for c0 in range(nc) for r1 in range(r0, nr) for c1 in range(c0, nc)]
+
+
+def all_edits(nr, nc, defaults=True):
+    """every accepted insertion / deletion of 1 or 2 rows / columns of an nr x nc table."""
+    out = []
+    for k, dim in (("ar", nr), ("ac", nc)):
+        for n in (1, 2):
+            for start in [None, *range(dim)]:
+                for d in ([None, 7] if defaults else [None]):
+                    out.append((k, n, start, d))
+    for k, dim in (("dr", nr), ("dc", nc)):
+        for n in (1, 2):
+            for start in [None, *range(dim)]:
+                if n < dim and (start is None or start + n <= dim):
+                    out.append((k, n, start))
+    return out
 
 
 def disjoint(a, b) -> bool:
@@ -388,24 +452,33 @@ def gen_scenario(seed: int):
     pic = Picture(nr, nc)
     ops = []
 
-    def edit(allow_reach):
-        op = gen_edit(rng, pic.grid)
+    def plan(op):
         cls = pic.grid.classify(op)
-        if touches(op, pic) and cls != "invalid":
-            if not allow_reach or cls == "boundary":
-                return True
-            ops.append(["x", list(op)])
-            return False
         if cls == "valid":
-            pic.grid.apply(op)
+            pic.apply(op)
             if op[0] == "w" and (q := pic.owner(op[1], op[2])) and (op[1], op[2]) != (q[0], q[1]):
                 pic.grid.cells[op[1]][op[2]] = 0
         ops.append(["e", list(op)])
-        return True
+
+    def aimed_edit():
+        """a row/column insertion or deletion placed relative to one rectangle: before it, at its first index, strictly
+        inside, at its last index, just after it; deletions of 1..3 rows/columns reach over its edges or swallow it."""
+        q = rng.choice(pic.rects)
+        rows = rng.random() < 0.5
+        lo, hi = (q[0], q[2]) if rows else (q[1], q[3])
+        dim = pic.grid.nr if rows else pic.grid.nc
+        at = rng.choice([0, max(lo - 1, 0), lo, min(lo + 1, dim - 1), hi, min(hi + 1, dim - 1), rng.randrange(lo, hi + 1)])
+        if rng.random() < 0.5 and dim < 14:
+            return ("ar" if rows else "ac", rng.choice([1, 1, 2, 3]), at, rng.randrange(1, 13) if rng.random() < 0.35 else None)
+        n = rng.choice([1, 1, 2, 3, hi - lo + 1, hi - lo + 2])
+        at = min(at, dim - n)
+        if n >= dim or at < 0:
+            return ("dr" if rows else "dc", 1, min(lo, dim - 1))
+        return ("dr" if rows else "dc", n, at)
 
     for _ in range(rng.randrange(0, 6)):          # edits before any merge
-        edit(False)
-    for round_ in range(rng.randrange(1, 4)):
+        plan(gen_edit(rng, pic.grid))
+    for _round in range(rng.randrange(1, 4)):
         qs = gen_rects(rng, pic.grid.nr, pic.grid.nc, pic.rects, rng.randrange(1, 4))
         if qs:
             if len(qs) == 1 and rng.random() < 0.6:
@@ -420,29 +493,19 @@ def gen_scenario(seed: int):
                 ops.append(["sk"])
             elif x < 0.3:
                 ops.append(["sv"])
-            elif x < 0.5 and pic.rects:          # a write aimed at a rectangle (anchor or placeholder)
+            elif x < 0.45 and pic.rects:          # a write aimed at a rectangle (anchor or placeholder)
                 q = rng.choice(pic.rects)
                 r, c = rng.randrange(q[0], q[2] + 1), rng.randrange(q[1], q[3] + 1)
                 if (r, c) != (q[0], q[1]) and rng.random() < 0.5:
                     r, c = q[0], q[1]
-                op = ("w", r, c, rng.randrange(1, 13))
-                pic.grid.apply(op)
-                if (r, c) != (q[0], q[1]):
-                    pic.grid.cells[r][c] = 0
-                ops.append(["e", list(op)])
+                plan(("w", r, c, rng.randrange(1, 13)))
+            elif x < 0.75 and pic.rects:          # a row/column edit aimed at a rectangle
+                plan(aimed_edit())
+                if rng.random() < 0.5:
+                    ops.append(["sk"])
             else:
-                if not edit(round_ > 0 and rng.random() < 0.5):
-                    return (nr, nc), ops
+                plan(gen_edit(rng, pic.grid))
     ops.append(["sv"])
-    if pic.rects and rng.random() < 0.7:          # finally an edit before / inside a rectangle
-        q = rng.choice(pic.rects)
-        rows = rng.random() < 0.5
-        lo, hi = (q[0], q[2]) if rows else (q[1], q[3])
-        at = rng.choice([0, lo, hi, max(lo - 1, 0)])
-        if rng.random() < 0.5:
-            ops.append(["x", ["ar" if rows else "ac", rng.choice([1, 2]), at, None]])
-        elif (pic.grid.nr if rows else pic.grid.nc) > 1:
-            ops.append(["x", ["dr" if rows else "dc", 1, at]])
     return (nr, nc), ops
 
 
@@ -684,6 +747,79 @@ def sibling_tables(ctx: Ctx):
         ctx.mark(("sibling", json.dumps(case, sort_keys=True)))
         for sig, what in problems:
             ctx.violation(sig, what[:600], {"sibling": case})
+def fixture_edits(ctx: Ctx):
+    """documents written by Numbers that contain merged regions: one row/column insertion or deletion placed relative to
+    one of the existing rectangles; the rectangles expected afterwards come from the picture oracle (`Picture.apply`), the
+    open document and the reopened file must both show them (oracle only; the model's scenarios are on new documents)."""
+    from numbers_parser import Document
+    rng = ctx.rng
+    for name in FIXTURES_WITH_MERGES:
+        path = common.REPO / "tests/data" / name
+        if not path.exists():
+            continue
+        for variant in range(2 if ctx.quick else 8):
+            try:
+                doc = Document(str(path))
+            except Exception:  # noqa: BLE001  (unreadable fixtures are other properties)
+                break
+            tables = [(si, ti) for si, sh in enumerate(doc.sheets) for ti, tb in enumerate(sh.tables) if tb.merge_ranges]
+            if not tables:
+                break
+            si, ti = tables[(variant * 3) % len(tables)]
+            tb = doc.sheets[si].tables[ti]
+            nr, nc = tb.num_rows, tb.num_cols
+            if nr * nc > 1200:
+                continue
+            pic = Picture(nr, nc)
+            pic.rects = [parse_range(s) for s in sorted(tb.merge_ranges)]
+            q = rng.choice(pic.rects)
+            rows = rng.random() < 0.5
+            lo, hi = (q[0], q[2]) if rows else (q[1], q[3])
+            dim = nr if rows else nc
+            at = rng.choice([0, lo, min(lo + 1, dim - 1), hi, rng.randrange(lo, hi + 1)])
+            if rng.random() < 0.5:
+                op = ("ar" if rows else "ac", rng.choice([1, 2]), at, None)
+            else:
+                n = rng.choice([1, 2, hi - lo + 1])
+                if n >= dim:
+                    n = 1
+                op = ("dr" if rows else "dc", n, min(at, dim - n))
+            where = {"fixture": name, "sheet": si, "table": ti, "op": list(op), "merges": [list(r) for r in pic.rects]}
+            try:
+                apply_op(tb, op)
+            except Exception as e:  # noqa: BLE001
+                ctx.violation("fixture-edit-raises", f"{name}: {op} raised {exc_name(e)}: {e}", where)
+                continue
+            pic.apply(op)
+            want_ranges = sorted(a1(*r) if (r[0], r[1]) != (r[2], r[3]) else a1(*r).split(":")[0] for r in pic.rects)
+            want_cells = ["."] * (pic.grid.nr * pic.grid.nc)
+            for r0, c0, r1, c1 in pic.rects:
+                for r in range(r0, r1 + 1):
+                    for c in range(c0, c1 + 1):
+                        want_cells[r * pic.grid.nc + c] = f"A{r1 - r0 + 1}x{c1 - c0 + 1}" if (r, c) == (r0, c0) else f"P{r0},{c0},{r1},{c1}"
+            got = _merge_picture(tb)
+            if got != (want_ranges, want_cells):
+                ctx.violation("fixture-edit-open-picture", f"{name} sheet {si} table {ti}: merges {where['merges']}, then {op}: the open "
+                              f"document reports ranges {got[0]} (expected {want_ranges})"
+                              + ("" if got[1] == want_cells else "; cell states differ"), where)
+                continue
+            fd, tmp = tempfile.mkstemp(suffix=".numbers")
+            os.close(fd)
+            try:
+                doc.save(tmp)
+                got2 = _merge_picture(Document(tmp).sheets[si].tables[ti])
+            except Exception as e:  # noqa: BLE001
+                ctx.violation("fixture-edit-save-raises", f"{name}: save/reopen after {op} raised {exc_name(e)}: {e}", where)
+                continue
+            finally:
+                os.unlink(tmp)
+            ctx.count("documents written by Numbers with merged regions: one row/column edit at a rectangle, open vs reopened", 1)
+            ctx.mark(("fixture-edit", name, si, ti, op))
+            if got2 != (want_ranges, want_cells):
+                ctx.violation("fixture-edit-open-vs-reloaded",
+                              f"{name} sheet {si} table {ti}: merges {where['merges']}, then {op}: the open document reports "
+                              f"{want_ranges}, the reopened file {got2[0]}"
+                              + ("" if got2[1] == want_cells or got2[0] != want_ranges else " (cell states differ)"), where)
 
 
 def run(ctx: Ctx):
@@ -692,9 +828,11 @@ def run(ctx: Ctx):
         # --- corpus: the examples of DESIGN.md ----------------------------------------------------
         corpus = [
             ((5, 4), [["e", ["w", r, c, 1 + (4 * r + c) % 12]] for r in range(5) for c in range(4)] + [["mg", [1, 1, 2, 2]], ["sk"], ["sv"]]),
-            ((6, 4), [["mg", [2, 1, 3, 2]], ["x", ["ar", 1, 0, None]]]),
-            ((6, 4), [["mg", [2, 1, 3, 2]], ["x", ["ar", 1, 2, None]]]),
-            ((6, 4), [["mg", [2, 1, 3, 2]], ["x", ["dc", 1, 0]]]),
+            ((6, 4), [["mg", [2, 1, 3, 2]], ["e", ["ar", 1, 0, None]], ["sk"]]),
+            ((6, 4), [["mg", [2, 1, 3, 2]], ["e", ["ar", 1, 2, None]], ["sk"]]),
+            ((6, 4), [["mg", [2, 1, 3, 2]], ["e", ["dc", 1, 0]], ["sk"]]),
+            ((6, 4), [["e", ["w", 2, 1, 5]], ["mg", [2, 1, 3, 2]], ["e", ["ar", 2, 3, 7]], ["sk"], ["e", ["dr", 1, 2]], ["sk"],
+                      ["e", ["dc", 1, 2]], ["sk"], ["e", ["dr", 3, 2]], ["sv"]]),
             ((5, 4), [["mg", [1, 1, 2, 2]], ["e", ["w", 2, 2, 3]]]),
             ((5, 4), [["ml", [[0, 0, 2, 0], [4, 1, 4, 3], [0, 3, 0, 3]]], ["sv"], ["e", ["ar", 2, None, 5]], ["e", ["dc", 0, None]], ["sk"]]),
         ]
@@ -713,20 +851,67 @@ def run(ctx: Ctx):
         _collect(ctx, "every rectangle of a 4x3 table; every pair of disjoint rectangles of a 3x3 table (single and list form), "
                       "each with save and save+reopen", pool.map(run_scenario, jobs, chunksize=8), True)
 
+        # --- exhaustive: one rectangle (or two), one row/column edit anywhere ------------------------------
+        # quick tier: every (rectangle, edit) pair runs against the model and the picture oracle; every fifth one also
+        # saves and reopens (a save costs five times the rest of a scenario)
+        jobs = []
+        for shape in ([(3, 3)] if ctx.quick else [(3, 3), (4, 3)]):
+            for q in all_rects(*shape):
+                for op in all_edits(*shape, defaults=not ctx.quick and shape == (3, 3)):
+                    save = [["sk"]] if not ctx.quick or len(jobs) % 5 == 0 else []
+                    jobs.append((shape, [["e", ["w", q[0], q[1], 2]], ["e", ["w", q[2], q[3], 3]], ["mg", list(q)],
+                                         ["e", list(op)], *save]))
+        for q in all_rects(3, 3):                  # insertions with a default fill: strictly inside the rectangle they are lost
+            for op in all_edits(3, 3):
+                if ctx.quick and op[0][0] == "a" and op[3] is not None and op[1] == 1 and op[2] is not None:
+                    jobs.append(((3, 3), [["mg", list(q)], ["e", list(op)], *([["sk"]] if len(jobs) % 5 == 0 else [])]))
+        pairs = [(a, b) for a, b in itertools.combinations(all_rects(3, 3), 2) if disjoint(a, b)]
+        for i, (a, b) in enumerate(pairs):
+            if i % (16 if ctx.quick else 3) == 0:
+                for op in all_edits(3, 3, defaults=False):
+                    if not ctx.quick or (op[1] == 1 and op[2] is not None):
+                        save = [["sv"]] if not ctx.quick or len(jobs) % 5 == 0 else []
+                        jobs.append(((3, 3), [["ml", [list(a), list(b)]], ["e", list(op)], *save]))
+        _collect(ctx, "every rectangle of a 3x3 table (thorough: and of a 4x3 table) followed by every accepted row/column insertion "
+                      "or deletion of 1 or 2 (any start, appended / last ones; with and without default); every 16th (thorough: "
+                      "third) pair of disjoint rectangles followed by such an edit; thorough: each with save + reopen, quick: "
+                      "every fifth",
+                 pool.map(run_scenario, jobs, chunksize=16), True)
+
         # --- seeded scenarios ---------------------------------------------------------------------------
         n = 150 if ctx.quick else 2500
         jobs = [gen_scenario(rng.randrange(1 << 30)) for _ in range(n)]
-        _collect(ctx, "seeded scenarios: shapes up to 12x8, 1..6 rectangles, writes / row+column edits / saves around them",
+        _collect(ctx, "seeded scenarios: shapes up to 12x8, 1..6 rectangles, writes / row+column edits (before, inside, overlapping, "
+                      "after the rectangles) / saves around them",
                  pool.map(run_scenario, jobs, chunksize=4), False)
     tall_probe(ctx)
     fixture_merges(ctx)
     sibling_tables(ctx)
+    fixture_edits(ctx)
 
 
 def replay(data):
     i = data.get("input", {})
     if "sibling" in i:
         return {"problems": _sibling_case(i["sibling"])}
+    if "fixture" in i:                       # a document written by Numbers: redo the merge / the row-column edit, save, reopen
+        from numbers_parser import Document
+        doc = Document(str(common.REPO / "tests/data" / i["fixture"]))
+        tb = doc.sheets[i["sheet"]].tables[i["table"]]
+        before = _merge_picture(tb)[0]
+        if "op" in i:
+            apply_op(tb, tuple(i["op"]))
+        else:
+            tb.merge_cells(i["merge"])
+        fd, tmp = tempfile.mkstemp(suffix=".numbers")
+        os.close(fd)
+        try:
+            doc.save(tmp)
+            re = _merge_picture(Document(tmp).sheets[i["sheet"]].tables[i["table"]])
+        finally:
+            os.unlink(tmp)
+        now = _merge_picture(tb)
+        return {"before": before, "open": now[0], "reopened": re[0], "cells_equal": now[1] == re[1]}
     r = MergeRunner(tuple(i["shape"]))
     for sop in i["ops"]:
         if sop[0] == "sv" and r.history and r.history[-1] == ["sv"]:
